@@ -398,6 +398,13 @@ func runScenario(tw *tracefmt.Writer, sc scen, id int, rng *rand.Rand, st *stats
 	}
 	reads := 0
 	endErr := ""
+	// delivered payloads are kept WITHOUT copying and re-hashed after the whole stream was
+	// read: the sequence a caller collected must still be the sequence that was written
+	type heldPayload struct {
+		p    []byte
+		then string
+	}
+	var held []heldPayload
 	for guard := 0; guard < len(seq)+3; guard++ {
 		ctx, err := r.ReadPacket()
 		if errors.Is(err, netmc.ErrReadPacketRetry) {
@@ -412,6 +419,7 @@ func runScenario(tw *tracefmt.Writer, sc scen, id int, rng *rand.Rand, st *stats
 			break
 		}
 		tw.Emit(tracefmt.Rec{"ev": "read", "len": len(ctx.Payload), "sum": sum(ctx.Payload)})
+		held = append(held, heldPayload{ctx.Payload, sum(ctx.Payload)})
 		reads++
 		st.Reads++
 		if sc.Late && reads == 1 {
@@ -425,6 +433,9 @@ func runScenario(tw *tracefmt.Writer, sc scen, id int, rng *rand.Rand, st *stats
 		st.EndErrors++
 	}
 	st.ConnReads += src.reads
+	for k, h := range held {
+		tw.Emit(tracefmt.Rec{"ev": "held", "k": k, "then": h.then, "now": sum(h.p)})
+	}
 	tw.Emit(tracefmt.Rec{"ev": "end", "err": endErr, "reads": reads})
 	if len(st.Samples) < 3 && sc.Mode == "compressed" && sc.Enc {
 		st.Samples = append(st.Samples, map[string]any{"scenario": sc, "payload_sizes": sizes(seq), "wire_bytes": len(wire),
